@@ -129,7 +129,7 @@ def caseBuf (toks : List (List Char)) : Option (Option Buf) :=
     | some bytes, some chars =>
       match CharCat.parseLines (Wire.splitOn '\n' (bytesToChars bytes)) with
       | .error _ => some none
-      | .ok rs => some (mkBuf (parseVariant toks) (CharCat.compile rs) chars)
+      | .ok rs => some (mkBufV (parseVariant toks) (Wire.kv? toks "bow" == some "fix".toList) (CharCat.compile rs) chars)
     | _, _ => none
   | _, _ => none
 
